@@ -141,14 +141,23 @@ CfgSep ==
     Cfg("stats1", G2, FX, A1, 0, <<>>), Cfg("step", G2, FX, S6, 0, <<>>), Cfg("top", G2, FX, <<>>, 1, <<>>),
     Cfg("fraction", G2, FX, <<>>, 0, <<>>), Cfg("stats1", G2, FX, A1, 2, <<>>) }
 
-Configs == CfgSep \cup CfgCnt \cup CfgStat \cup CfgPct \cup CfgDsl \cup CfgMerge \cup CfgMergeC \cup CfgStep \cup CfgWin \cup CfgTop \cup CfgFrac \cup CfgHist \cup CfgFill
+\* ---- names and group values whose plain concatenations collide: value fields x and x2, groups 5, 25, 2 and the empty text
+\* ("x" . "25" = "x2" . "5", "x" . "2" = "x2" . ""): an accumulator belongs to the PAIR (value field, group), whatever text an
+\* implementation glues together to find it
+RUglue == { <<P("g", "25"), P("x", "1"), P("x2", "10")>>, <<P("g", "5"), P("x", "2"), P("x2", "20")>>, <<P("g", "25"), P("x", "3"), P("x2", "30")>>,
+            <<P("g", "5"), P("x", "4"), P("x2", "70")>>, <<P("g", "2"), P("x", "5"), P("x2", "50")>>, <<P("g", "5"), P("x2", "9")>>,
+            <<P("g", "25"), P("x", "8")>> }
+FXX2 == <<"x", "x2">>
+CfgGlue == {Cfg("stats1", G1, f, a, 0, <<>>) : f \in {FXX2, <<"x2", "x">>}, a \in {A1, A3, A5}}
+
+Configs == CfgGlue \cup CfgSep \cup CfgCnt \cup CfgStat \cup CfgPct \cup CfgDsl \cup CfgMerge \cup CfgMergeC \cup CfgStep \cup CfgWin \cup CfgTop \cup CfgFrac \cup CfgHist \cup CfgFill
 Fam(cfgs, ru, ex, mx) == [cfgs |-> cfgs, ru |-> ru, ex |-> ex, mx |-> mx]
 Families ==
   { Fam(CfgCnt, RUcnt, ExLen, MaxLen), Fam(CfgStat, RUstat, ExLen, MaxLen + 1), Fam(CfgPct, RUpct, ExLen, 6), Fam(CfgDsl, RUdsl, ExLen, 6),
     Fam(CfgMerge, RUmerge, ExLen, ExLen + 1), Fam(CfgMergeC, RUmergec, ExLen, ExLen + 1),
     Fam(CfgStep, RUint, ExLen, MaxLen + 1), Fam(CfgWin, RUint, ExLen, MaxLen + 1), Fam(CfgTop, RUint, ExLen, MaxLen + 1),
     Fam(CfgFrac, RUfrac, ExLen, MaxLen), Fam(CfgHist, RUhist, ExLen, MaxLen), Fam(CfgFill, RUfill, ExLen, MaxLen),
-    Fam(CfgSep, RUsep, ExLen, MaxLen) }
+    Fam(CfgSep, RUsep, ExLen, MaxLen), Fam(CfgGlue, RUglue, ExLen, MaxLen + 2) }
 \* x is a case: a configuration of a family with a short stream or one of the sampled longer ones.  (An operator with a parameter,
 \* enumerated by TLC as VerbsAggregateGen's initial states: a constant definition of the whole set would be evaluated, with all
 \* its samples, by every module that extends this one.)
